@@ -426,6 +426,11 @@ pub fn client_for(reqs: &[Req], pipelined: bool, frag: Frag) -> Client {
             ops.push(Op::AwaitFinal(finals));
         }
     }
+    // A pipelining client normally keeps its side open until it has its answers; half of
+    // the pipelined clients do (the others half-close right after the last request byte).
+    if pipelined && finals > 0 && crate::gen::ratio(1, 2) {
+        ops.push(Op::AwaitFinal(finals));
+    }
     ops.push(Op::Fin);
     Client::new(ops, frag)
 }
